@@ -545,6 +545,11 @@ def accept_rule(R, lib, cls, f):
                     return 0
                 return None
             if a[0] == 'sym':
+                # a cold cache: nothing is filled; the cached year fields hold no year of the tested range
+                if a[1].startswith('this.'):
+                    return 0 if 'IsFilled' in a[1] else -32768
+                if a[1] == 'null':
+                    return 0
                 return None
             # arithmetic atoms over the above
             from .gnf import eval_poly
@@ -622,8 +627,29 @@ def error_return_rule(R, lib, f, want):
                 succ_vars.add(s.a[0])
         elif s.k == 'assign' and s.a[0].k == 'var':
             defs.setdefault(s.a[0].a[0], []).append(s.a[1])
-    if not succ_vars:
-        raise AnalysisError('%s: accessor does not capture the result of init()/getTransition()' % f.loc)
+    def direct_test(cond):
+        """the condition is the call of init()/getTransition() itself (possibly negated / compared with null or false):
+        -> True when the condition being true means success, False when it means failure, None when it is no such test"""
+        c, pos = cond, True
+        while True:
+            if c.k == 'cast' or (c.k == 'un' and c.a[0] == 'bool'):
+                c = c.a[-1]
+            elif c.k == 'un' and c.a[0] == '!':
+                c, pos = c.a[1], not pos
+            elif c.k == 'bin' and c.a[0] in ('==', '!=') and any(x.k in ('null', 'const') for x in (c.a[1], c.a[2])):
+                other = c.a[2] if c.a[1].k not in ('null', 'const') else c.a[1]
+                lit = c.a[1] if other is c.a[2] else c.a[2]
+                falsy = lit.k == 'null' or not lit.a[0]
+                pos = pos if ((c.a[0] == '!=') == falsy) else not pos
+                c = other
+            else:
+                break
+        if c.k == 'call' and c.a[0].split('::')[-1] in ('init', 'getTransition'):
+            return pos
+        return None
+    direct = any(direct_test(s.a[0]) is not None for s in walk_stmts(f.body) if s.k == 'if')
+    if not succ_vars and not direct:
+        raise AnalysisError('%s: accessor neither captures nor tests the result of init()/getTransition()' % f.loc)
 
     class ER(Rule):
         def initial(self_):
@@ -633,6 +659,9 @@ def error_return_rule(R, lib, f, want):
             p, positive = null_test(cond)
             if p in succ_vars:
                 return ('ok' if truth == positive else 'failed', st[1])
+            d = direct_test(cond)
+            if d is not None:
+                return ('ok' if truth == d else 'failed', st[1])
             return st
 
         def assign(self_, s, st, tr):
